@@ -523,6 +523,26 @@ void Router::processActions(void)
 
         if (!isMove)
         {
+            // Queued connector endpoint updates hold copies of ConnEnds that
+            // may still refer to this obstacle.  Turn those into manual
+            // points too, before the obstacle is freed.
+            for (ActionInfoList::iterator other = actionList.begin();
+                    other != finish; ++other)
+            {
+                if (other->type != ConnChange)
+                {
+                    continue;
+                }
+                for (ConnUpdateList::iterator upd = other->conns.begin();
+                        upd != other->conns.end(); ++upd)
+                {
+                    if (upd->second.m_anchor_obj == obstacle)
+                    {
+                        upd->second = ConnEnd(upd->second.position());
+                    }
+                }
+            }
+
             // Free deleted obstacle.
             m_currently_calling_destructors = true;
             deletedObstacles.push_back(obstacle->id());
